@@ -217,7 +217,7 @@ E("aotools.image_processing.contrast.image_contrast", [("image", ["img2d", "img3
 E("aotools.image_processing.contrast.rms_contrast", [("image", ["img2d", "img3d", "mask2d", "cplx2d"])], None, lambda f, A, S: f(A["image"]))
 E("aotools.image_processing.psf.azimuthal_average", [("data", ["img2d", "mask2d", "cplx2d"])], None, lambda f, A, S: f(A["data"]))
 E("aotools.image_processing.psf.encircled_energy", [("data", ["img2d", "mask2d"])],
-  lambda r, z: {"fraction": r.choice([0.5, 0.8]), "center": r.choice([None, [3, 3]]), "d": r.choice([True, False])},
+  lambda r, z: {"fraction": r.choice([0.5, 0.8]), "center": r.choice([None, None, [3, 3]]), "d": r.choice([True, False, False, False])},   # d=False returns the whole curve
   lambda f, A, S: f(A["data"], S["fraction"], S["center"], S["d"]))
 
 # ---- interpolation ------------------------------------------------------------------------------------------------------
